@@ -683,6 +683,7 @@ struct Ctx<'a> {
     rep: &'a mut Report,
     seen: HashSet<Vec<u8>>,
     thorough: bool,
+    rot_observed: bool,
 }
 
 /// One recorded handler call.
@@ -1274,6 +1275,266 @@ fn probe_codebook(cx: &mut Ctx) {
     }
 }
 
+
+// ---------------------------------------------------------------- size limit / rotation
+
+/// Candidate finding, pending the coordinator's decision: reported through `observe` (not `violation`)
+/// while this is false.
+const ROTATION_IS_VIOLATION: bool = false;
+const ROTATION_CLASS: &str = "tensor_chain.raft_wal.rotate/restart_ignores_rotated_segments";
+
+fn hex_or_dash(b: &[u8]) -> String {
+    if b.is_empty() {
+        "-".into()
+    } else {
+        hex(b)
+    }
+}
+
+fn rotated_path(path: &Path, k: usize) -> PathBuf {
+    let name = path.file_name().unwrap().to_string_lossy().to_string();
+    path.with_file_name(format!("{name}.{k}"))
+}
+
+/// live file + `<wal>.1`, `<wal>.2`, … in the model's notation
+fn wal_files_tok(path: &Path) -> String {
+    let cur = std::fs::read(path).unwrap_or_default();
+    let mut rot = vec![];
+    for k in 1..=8 {
+        match std::fs::read(rotated_path(path, k)) {
+            Ok(b) => rot.push(hex_or_dash(&b)),
+            Err(_) => break,
+        }
+    }
+    format!("cur={} rot={}", hex_or_dash(&cur), if rot.is_empty() { "-".to_string() } else { rot.join(";") })
+}
+
+fn report_rotation(cx: &mut Ctx, what: &str, input: Value) {
+    if ROTATION_IS_VIOLATION {
+        cx.rep.violation(ROTATION_CLASS, what, input);
+    } else if !cx.rot_observed {
+        cx.rot_observed = true;
+        cx.rep.observe(json!({"candidate_class": ROTATION_CLASS, "what": what, "input": input,
+            "note": "candidate finding, kept as an observation until the coordinator decides (first occurrence only; \
+                     see distribution rot.* for counts)"}));
+    }
+}
+
+/// `RaftWal::open_with_config` with a small `max_size_bytes`: every append compared (live file and rotated
+/// files, byte for byte) with the model's `walAppend`; oracle: what `from_wal` recovers vs everything appended.
+fn run_rot_raw(cx: &mut Ctx, r: &mut Rng, case_no: u64) {
+    let dir = shm_dir();
+    let path = dir.path().join("w.wal");
+    let max = 30 + r.below(260);
+    let maxrot = r.below(4) as usize;
+    let mut c = tensor_chain::raft_wal::WalConfig::default();
+    c.max_size_bytes = max;
+    c.max_rotated_files = maxrot;
+    cx.m.ask(&format!("wal_new {max} {maxrot}"));
+    let mut w = RaftWal::open_with_config(&path, c.clone()).unwrap();
+    let n = 4 + r.below(20) as usize;
+    let mut all: Vec<RaftWalEntry> = vec![];
+    let mut toks: Vec<String> = vec![];
+    let mut rotated = false;
+    let mut forgot = false;
+    for _ in 0..n {
+        if r.chance(1, 8) {
+            drop(w);
+            w = RaftWal::open_with_config(&path, c.clone()).unwrap();
+            let mo = cx.m.ask("wal_reopen");
+            let t = toks.clone();
+            cx.rep.compare("rot.reopen", || json!({"max": max, "maxrot": maxrot, "entries": t}), &wal_files_tok(&path), &mo);
+            toks.push("reopen".into());
+        }
+        // small records mostly, so that several fit below the limit
+        let rec = if r.chance(3, 4) {
+            match r.below(3) {
+                0 => RaftWalEntry::TermAndVote { term: 1 + r.below(6), voted_for: if r.chance(1, 2) { Some(nid(r.below(4))) } else { None } },
+                1 => RaftWalEntry::LogTruncate { from_index: r.below(9) },
+                _ => RaftWalEntry::LogEntryFull { index: 1 + r.below(6), term: 1 + r.below(6), entry_data: r.bytes(3) },
+            }
+        } else {
+            gen_raw(r, 6)
+        };
+        let payload = bitcode::serialize(&rec).unwrap();
+        let before_len = std::fs::metadata(&path).map(|m| m.len()).unwrap_or(0);
+        let res = w.append(&rec);
+        toks.push(rec_tok(&rec));
+        all.push(rec.clone());
+        let imp = match &res {
+            Ok(()) => wal_files_tok(&path),
+            Err(e) => format!("err {e}"),
+        };
+        let mo = cx.m.ask(&format!("wal_append {}", hex(&payload)));
+        let t = toks.clone();
+        cx.rep.compare("rot.append", || json!({"max": max, "maxrot": maxrot, "entries": t}), &imp, &mo);
+        if before_len + 8 + payload.len() as u64 > max {
+            rotated = true;
+            cx.rep.hit("rot.append.rotates");
+        } else {
+            cx.rep.hit("rot.append.fits");
+        }
+        // oracle: a restart (from_wal) must see everything that was appended
+        let got = match w.replay() {
+            Ok(es) => rstate_tok(&RaftRecoveryState::from_entries(&es)),
+            Err(e) => format!("err {}", err_class(&e.to_string())),
+        };
+        let want = rstate_tok(&RaftRecoveryState::from_entries(&all));
+        if got != want {
+            if !rotated {
+                cx.rep.violation(
+                    "tensor_chain.raft_wal.append/record_lost_within_size_limit",
+                    "from_wal does not return the state of the appended records although the size limit was never reached",
+                    json!({"case": case_no, "max": max, "maxrot": maxrot, "entries": toks, "got": got, "want": want}),
+                );
+            } else if !forgot {
+                forgot = true;
+                cx.rep.hit("rot.forgot_after_rotation");
+                report_rotation(
+                    cx,
+                    "RaftWal::append rotated the live file away (size limit); from_wal reads the live file only and no longer returns the state of the records appended before",
+                    json!({"case": case_no, "level": "RaftWal", "max_size_bytes": max, "max_rotated_files": maxrot, "entries": toks, "recovered": got, "state_of_all_appended": want}),
+                );
+            }
+        }
+    }
+    if !rotated {
+        cx.rep.hit("rot.case.never_rotated");
+    }
+    cx.rep.case("rot.raw", Some(&format!("{max}|{maxrot}|{}", toks.join(" "))));
+}
+
+/// The same on a real `RaftNode::with_wal` (1 GiB limit, not configurable there): the harness stands in
+/// for 1 GiB of earlier history by padding the live file with sparse filler frames (stored checksum 0,
+/// undecodable: replay stops at the first one), restarts the node (everything is still recovered —
+/// checked), lets it acknowledge one more entry (that append crosses the limit and rotates) and restarts
+/// it again.
+fn run_rot_node(cx: &mut Ctx, r: &mut Rng, case_no: u64) {
+    use std::io::{Seek, SeekFrom, Write};
+    const MAX: u64 = 1024 * 1024 * 1024;
+    const CHUNK: u64 = 16 * 1024 * 1024;
+    let dir = shm_dir();
+    let path = dir.path().join("raft.wal");
+    let t = 2 + r.below(7);
+    let c1 = 1 + r.below(NPEERS);
+    let c2 = 1 + (c1 % NPEERS);
+    let k = 1 + r.below(3);
+    let ents: Vec<(u64, u64)> = (0..k).map(|_| (t, 1 + r.below(900))).collect();
+    let extra = (t, 1 + r.below(900));
+    let mut lv = Live { node: mk_node(&path).expect("fresh wal"), in_pre: false };
+    let mut history = vec![];
+    let mut ghost = Ghost::default();
+    let ev1 = Ev::Rv { t, c: c1, li: 0, lt: 0 };
+    let ev2 = Ev::Ae { t, l: c1, pi: 0, pt: 0, ents: ents.clone() };
+    let ev3 = Ev::Ae { t, l: c1, pi: k, pt: t, ents: vec![extra] };
+    let r1 = apply_real(&mut lv, &ev1);
+    history.push(json!({"ev": ev1.line(), "reply": r1}));
+    let r2 = apply_real(&mut lv, &ev2);
+    history.push(json!({"ev": ev2.line(), "reply": r2}));
+    if r1 != format!("vote:{t}:1") || r2 != format!("append:{t}:1:{k}") {
+        cx.rep.disagree("rot.node", json!({"history": history}), &format!("{r1} {r2}"), "vote granted, entries acknowledged");
+        return;
+    }
+    ghost.acted = t;
+    ghost.votes.insert((t, c1));
+    for e in node_log(&lv.node) {
+        ghost.acked.insert(e);
+    }
+    drop(lv);
+    // pad to MAX - 8 bytes: no further record fits
+    let len = std::fs::metadata(&path).unwrap().len();
+    {
+        let mut f = std::fs::OpenOptions::new().write(true).open(&path).unwrap();
+        let end = MAX - 8;
+        let mut pos = len;
+        while pos < end {
+            let mut body = (end - pos - 8).min(CHUNK);
+            // never leave a gap smaller than a frame header
+            if end - (pos + 8 + body) > 0 && end - (pos + 8 + body) < 8 {
+                body -= 8;
+            }
+            f.seek(SeekFrom::Start(pos)).unwrap();
+            f.write_all(&(body as u32).to_le_bytes()).unwrap();
+            f.write_all(&0u32.to_le_bytes()).unwrap();
+            pos += 8 + body;
+        }
+        f.set_len(end).unwrap();
+    }
+    history.push(json!({"harness": "live file padded with sparse filler frames", "from_len": len, "to_len": MAX - 8}));
+    // restart 1: below the limit nothing is forgotten
+    let n1 = match mk_node(&path) {
+        Ok(n) => n,
+        Err(e) => {
+            cx.rep.disagree("rot.node", json!({"history": history}), &format!("restart fails: {e}"), "restart on the padded file");
+            return;
+        }
+    };
+    {
+        let p = dir.path().join("probe1.wal");
+        // the probe copy need not be padded: same records, same recovery
+        let mut head = vec![0u8; len as usize];
+        {
+            use std::io::Read;
+            std::fs::File::open(&path).and_then(|mut f| f.read_exact(&mut head)).unwrap();
+        }
+        std::fs::write(&p, &head).unwrap();
+        let voted = mk_node(&p).map(|pn| probe_voted(&pn)).unwrap_or("?".into());
+        let bad = ghost.check(n1.current_term(), &voted, &node_log(&n1));
+        for (kind, detail) in bad {
+            cx.rep.violation(&format!("tensor_chain.raft_wal.recover/{kind}"), &detail, json!({"case": case_no, "history": history, "at": "restart below the size limit"}));
+        }
+    }
+    let mut lv = Live { node: n1, in_pre: false };
+    let r3 = apply_real(&mut lv, &ev3);
+    history.push(json!({"ev": ev3.line(), "reply": r3}));
+    if r3 == format!("append:{t}:1:{}", k + 1) {
+        for e in node_log(&lv.node) {
+            ghost.acked.insert(e);
+        }
+    }
+    let rotated_len = std::fs::metadata(rotated_path(&path, 1)).map(|m| m.len()).unwrap_or(0);
+    let live_len = std::fs::metadata(&path).map(|m| m.len()).unwrap_or(0);
+    history.push(json!({"files": {"raft.wal": live_len, "raft.wal.1": rotated_len}}));
+    cx.rep.hit(if rotated_len > 0 { "rot.node.rotated" } else { "rot.node.not_rotated" });
+    drop(lv);
+    // restart 2
+    let p2 = dir.path().join("probe2.wal");
+    std::fs::copy(&path, &p2).unwrap();
+    match (mk_node(&path), mk_node(&p2)) {
+        (Ok(n2), Ok(pn)) => {
+            let term = n2.current_term();
+            let log = node_log(&n2);
+            let voted = probe_voted(&pn);
+            let bad = ghost.check(term, &voted, &log);
+            // the consequence the property names: a second candidate gets the vote of the same term
+            let mut lv2 = Live { node: n2, in_pre: false };
+            let again = apply_real(&mut lv2, &Ev::Rv { t, c: c2, li: u64::MAX / 2, lt: u64::MAX / 2 });
+            let double = again == format!("vote:{t}:1");
+            if !bad.is_empty() {
+                cx.rep.hit("rot.node.forgot_after_rotation");
+                if double {
+                    cx.rep.hit("rot.node.double_vote");
+                }
+                let lost: Vec<String> = bad.iter().map(|(k, d)| format!("{k}: {d}")).collect();
+                report_rotation(
+                    cx,
+                    "the WAL of a RaftNode reached max_size_bytes; the next append rotated the live file to <wal>.1; RaftNode::with_wal reads the live file only: term, vote and acknowledged entries written before are forgotten",
+                    json!({"case": case_no, "level": "RaftNode::with_wal", "history": history, "obligations": ghost.tok(),
+                           "restarted": format!("{}/{}/{}", term, voted, log_tok(&log)), "lost": lost,
+                           "then": format!("RequestVote(term {t}, candidate n{c2}) -> {again}"),
+                           "double_vote_in_one_term": double}),
+                );
+            } else {
+                cx.rep.hit("rot.node.nothing_forgotten");
+            }
+        }
+        (Err(e), _) | (_, Err(e)) => {
+            cx.rep.disagree("rot.node", json!({"history": history}), &format!("restart fails: {e}"), "restart after rotation");
+        }
+    }
+    cx.rep.case("rot.node", Some(&format!("{t}|{c1}|{k}|{ents:?}|{extra:?}")));
+}
+
 fn main() {
     let args = parse_args();
     let mut rep = Report::new(
@@ -1295,20 +1556,35 @@ fn main() {
         "snapshot.rejected_stale", "snapshot.rejected_invalid", "snapshot.script.gap", "snapshot.script.suffix_agrees",
         "snapshot.script.suffix_conflicts", "cut.mid_snapshot_install", "cut.mid_snapshot_install.some_entries_durable",
         "chain.crash_mid_install",
+        "rot.append.rotates", "rot.append.fits", "rot.case.never_rotated", "rot.node.rotated",
     ]
     .iter()
     .map(|s| s.to_string())
     .collect();
+    let t_all_end = std::time::Instant::now();
     let mut m = Model::spawn(&args.driver);
     let root = Rng::new(args.seed);
     let thorough = args.thorough;
     {
-        let mut cx = Ctx { m: &mut m, rep: &mut rep, seen: HashSet::new(), thorough };
+        let mut cx = Ctx { m: &mut m, rep: &mut rep, seen: HashSet::new(), thorough, rot_observed: false };
+        let t_all = std::time::Instant::now();
         let mut r = root.fork("raw");
         let n_raw = if thorough { 1500 } else { 150 };
         for i in 0..n_raw {
             run_raw(&mut cx, &mut r, i);
         }
+        if std::env::var("C10_TIMES").is_ok() { eprintln!("before rot.node {:?}", t_all.elapsed()); }
+        let mut r = root.fork("rot.node");
+        for i in 0..(if thorough { 6 } else { 2 }) {
+            run_rot_node(&mut cx, &mut r, 30_000 + i);
+        }
+        if std::env::var("C10_TIMES").is_ok() { eprintln!("before rot.raw {:?}", t_all.elapsed()); }
+        let mut r = root.fork("rot.raw");
+        for i in 0..(if thorough { 800 } else { 80 }) {
+            run_rot_raw(&mut cx, &mut r, 20_000 + i);
+        }
+        cx.m.ask("clear");
+        if std::env::var("C10_TIMES").is_ok() { eprintln!("before snapshot {:?}", t_all.elapsed()); }
         let mut r = root.fork("snapshot");
         for i in 0..(if thorough { 300 } else { 30 }) {
             let (script, variant) = snapshot_script(&mut r);
@@ -1317,6 +1593,7 @@ fn main() {
             run_case(&mut cx, &mut r, 10_000 + i, 2, Some(script), "snapshot");
         }
         probe_codebook(&mut cx);
+        if std::env::var("C10_TIMES").is_ok() { eprintln!("before chain {:?}", t_all.elapsed()); }
         let mut r = root.fork("chain");
         // thorough: every byte of every phase for the first 30 scripts, then many more scripts with
         // boundary±{1,3,7} + random cuts
@@ -1326,6 +1603,7 @@ fn main() {
             run_case(&mut cx, &mut r, i, 3, None, "chain");
         }
     }
+    if std::env::var("C10_TIMES").is_ok() { eprintln!("end {:?}", t_all_end.elapsed()); }
     rep.note("votedFor of a restarted real node is observed through RequestVote probes on a throw-away copy (no getter exists)");
     rep.write(&args.out);
 }
